@@ -59,6 +59,12 @@ where
         fri_params.total_arities() <= degree_bits + rate_bits - cap_height,
         "FRI total reduction arity is too large.",
     );
+    // The final FRI polynomial has `degree_bits - total_arities` bits; reducing any further
+    // would fold away non-zero coefficients and yield a proof that the verifier rejects.
+    assert!(
+        fri_params.total_arities() <= degree_bits,
+        "FRI total reduction arity is too large: it exceeds the degree bits.",
+    );
     let (final_poly_coeff_len, max_num_query_steps) =
         if let Some(verifier_circuit_fri_params) = verifier_circuit_fri_params {
             assert_eq!(verifier_circuit_fri_params.config, fri_params.config);
@@ -153,6 +159,12 @@ where
     assert!(
         fri_params.total_arities() <= degree_bits + rate_bits - cap_height,
         "FRI total reduction arity is too large.",
+    );
+    // The final FRI polynomial has `degree_bits - total_arities` bits; reducing any further
+    // would fold away non-zero coefficients and yield a proof that the verifier rejects.
+    assert!(
+        fri_params.total_arities() <= degree_bits,
+        "FRI total reduction arity is too large: it exceeds the degree bits.",
     );
 
     let constraint_degree = stark.constraint_degree();
